@@ -65,8 +65,9 @@ func expectedScopes(f *File) (user map[string]bool, invented map[string]string) 
 func checkC15(c *FileCase) *Violation {
 	st := stat("C15")
 	src := fileCaseSrc(c)
-	user, invented := expectedScopes(c.File)
-	m := collectNames(c.File)
+	model := c.model()
+	user, invented := expectedScopes(model)
+	m := collectNames(model)
 	kinds := map[string]bool{}
 	nonDefault := false
 	for _, opt := range []bool{false, true} {
@@ -120,7 +121,7 @@ func checkC15(c *FileCase) *Violation {
 		}
 	}
 	topKinds := map[string]bool{}
-	for _, t := range c.File.Tops {
+	for _, t := range model.Tops {
 		topKinds[t.K] = true
 		switch t.K {
 		case "script":
@@ -146,6 +147,9 @@ func checkC15(c *FileCase) *Violation {
 }
 
 func genC15(t *rapid.T) *FileCase {
+	if rapid.IntRange(0, 2).Draw(t, "kitchen") == 0 {
+		return genKitchenCase(t, 0, 3)
+	}
 	cfg := DefaultFileCfg()
 	cfg.CF.MaxDepth = 3
 	cfg.MaxTops = 7
